@@ -844,9 +844,9 @@ def shell_paths(ctx, ecases, emodel, mism, specv):
             continue
         stdout = core.unhx(parts[1]).decode("utf-8", "replace")
         stderr = core.unhx(parts[2]).decode("utf-8", "replace")
-        if heredoc_class(mode, ecases[i][1]) and "here document" in stderr and mf[0] == "ok":
+        if heredoc_class(mode, ecases[i][1]) and "here document" in stderr:
             specv.append({"input": {"script": script[1]},
-                          "why": "the (( )) command is not parsed: %s; expected value %s" % (stderr.strip()[-160:], mf[1]),
+                          "why": "the (( )) command is not parsed: %s; expected result %s" % (stderr.strip()[-160:], mf[:2]),
                           "known": "KF-C07-arith-command-heredoc"})
             stats["known_heredoc"] = stats.get("known_heredoc", 0) + 1
             continue
